@@ -117,15 +117,18 @@ Definition unwhitelist (who perm : Z) (w : world) : outcome world :=
 (* keeper.SetProposalDuration *)
 Definition set_duration (ty d : Z) (w : world) : option world :=
   if d <? n_endtime (w_np w) then None else Some (with_durs w (set_ix ty d (w_durs w))).
-(* SetProposalDurationsProposalHandler.Apply: on the first failing entry it returns nil (sic),
-   keeping the entries written before it *)
-Fixpoint apply_durations (l : list (Z * Z)) (w : world) : world :=
+(* SetProposalDurationsProposalHandler.Apply: what happens on the first failing entry is read from
+   the source on every run (Gen/GovHandlers.v, [durations_error_returned]): either the error is
+   returned, or the handler returns nil (sic) and keeps the entries written before it *)
+Fixpoint apply_durations (ret_err : bool) (l : list (Z * Z)) (w : world) : outcome world :=
   match l with
-  | [] => w
-  | (ty, d) :: r => match set_duration ty d w with Some w' => apply_durations r w' | None => w end
+  | [] => Ok w
+  | (ty, d) :: r => match set_duration ty d w with
+                    | Some w' => apply_durations ret_err r w'
+                    | None => if ret_err then Err "duration should be longer than minimum proposal duration" else Ok w end
   end.
 
-Definition c_handler (c : ccontent) (w : world) : outcome world :=
+Definition c_handler (ret_err : bool) (c : ccontent) (w : world) : outcome world :=
   match c with
   | CSetProp pid v =>
       match np_get pid (w_np w) with
@@ -136,7 +139,7 @@ Definition c_handler (c : ccontent) (w : world) : outcome world :=
   | CRegistry key hash => Ok (mkW (w_np w) (w_actors w) (w_durs w) (set_ix key hash (w_reg w)))
   | CWhitelist who perm => whitelist who perm w
   | CUnwhitelist who perm => unwhitelist who perm w
-  | CDurations l => Ok (apply_durations l w)
+  | CDurations l => apply_durations ret_err l w
   end.
 
 (* ---- direct edits made by the harness between messages (keeper calls; failures change nothing) *)
@@ -163,9 +166,11 @@ Definition c_ext (e : cext) (w : world) : world :=
 (* ---- the instantiated lifecycle *)
 Definition cstate := state world ccontent.
 Definition cop := op ccontent cext.
-Definition c_step (dec : tally -> vresult) : ctx -> cop -> cstate -> outcome cstate :=
-  step world ccontent cext valid_basic
+Definition c_params (ret_err : bool) (dec : tally -> vresult) : params world ccontent cext :=
+  mkParams world ccontent cext valid_basic
        (fun w who c => w_has_perm w who (prop_perm c)) w_is_active
        (fun w who c => w_has_perm w who (vote_perm c)) w_nvoters w_nveto
        (fun w _ => n_quorum (w_np w)) w_end_secs (fun w _ => n_enact (w_np w))
-       (fun w => n_endblocks (w_np w)) (fun w => n_enactblocks (w_np w)) c_handler c_ext dec.
+       (fun w => n_endblocks (w_np w)) (fun w => n_enactblocks (w_np w)) (c_handler ret_err) c_ext dec.
+Definition c_step (ret_err : bool) (dec : tally -> vresult) : ctx -> cop -> cstate -> outcome cstate :=
+  step world ccontent cext (c_params ret_err dec).
